@@ -113,6 +113,18 @@ CHECKS["C02"] = (
     "DESIGN.md §3 C02",
 )
 
+CHECKS["C08"] = (
+    "exploration",
+    "isolation monitor (snapshot of class-level attributes, every constructor argument object and all peer instances around each in-place mutation) plus reset-freshness oracle (attribute after reset/del compared with a freshly constructed instance, object identity checked against defaults and peers)",
+    "Histories over generated classes mix construction, in-place API mutation, direct mutation of nested containers and nested spec "
+    "instances, reset_<a>, reset and del; around every mutation the snapshot of all class-level defaults, of every object ever passed "
+    "to a constructor and of every other live instance must not move; after every reset/deletion the attribute must equal what a "
+    "fresh instance of the same class holds, be a fresh object and be missing iff there is no default. All nine ways of declaring a "
+    "default (literal, Attr, factory, field, field factory, none, spec re-declare, spec re-default, plain override) are gated.",
+    "Trusted: snapshot walker; a fresh instance as the reference for defaults. do_not_copy attributes excluded (sharing is declared).",
+    "DESIGN.md §3 C08",
+)
+
 NOT_YET = {}
 
 
